@@ -32,7 +32,11 @@ class Cap(logging.Handler):
 
     def emit(self, record):
         try:
-            self.world.logs.append((record.levelname, record.getMessage()))
+            msg = record.getMessage()
+            if record.exc_info:
+                import traceback
+                msg += " | " + "".join(traceback.format_exception(*record.exc_info))[-1200:]
+            self.world.logs.append((record.levelname, msg))
         except Exception as e:
             self.world.logs.append(("FORMAT-ERROR", repr(e)))
 
